@@ -101,7 +101,7 @@ func (r *DocumentHandler) ProcessOperation(operationBuffer []byte) (*document.Re
 	}
 
 	if op.Type != operation.TypeCreate {
-		return nil, fmt.Errorf("%s: %s", badRequest, err.Error())
+		return nil, fmt.Errorf("%s: operation type [%s] not supported", badRequest, op.Type)
 	}
 
 	jcsBytes, err := canonicalizer.MarshalCanonical(operationBuffer)
